@@ -8,3 +8,4 @@
 pub mod facade;
 pub mod io_tap;
 pub mod probe;
+pub mod sched;
